@@ -35,6 +35,7 @@ Emit == IF Len(hist) = MaxSteps
                                kinds |-> [c \in Classes |-> ClassKinds[c]],
                                x |-> [c \in Classes |-> ClassX[c]],
                                t |-> [c \in Classes |-> ClassT[c]],
+                               xs |-> [c \in Classes |-> ClassXS[c]],
                                m |-> [c \in Classes |-> ClassM[c]]]) \o "\n", "behaviours.ndjson",
                  [format |-> "TXT", charset |-> "UTF-8", openOptions |-> <<"WRITE", "CREATE", "APPEND">>]).exitValue = 0
         ELSE TRUE
